@@ -173,6 +173,7 @@ def run(ctx):
     multi_epoch(ctx)
     nonfinite_inputs(ctx)
     reset_histories(ctx)
+    several_instances(ctx)
 
 
 def _bounds_owner(est):
@@ -408,3 +409,48 @@ def reset_histories(ctx):
             ctx.issue("violation", f"{'SimpleARTMAP/' if hosted else ''}{cls}.{stage}+reset:{exc_enum(e)}",
                       f"{stage} under a vetoing reset function (mode {mode}) raised {e!r} on data accepted by validate_data", desc)
         cov.case(("reset", cls, fam.spec, desc["rows"], mode, eps, hosted), True)
+
+
+def several_instances(ctx):
+    """several estimators of different layouts alive in one process, every entry point called with its DEFAULT
+    arguments, in both orders: a call on one instance must not make a later call on another instance raise
+    (module-level state, shared mutable defaults)"""
+    cov = ctx.cov
+    for i in range(ctx.scale(8, 80)):
+        r = gen.rng_for(ctx.seed, "C04-instances", i)
+        ks = [3, 2] if i % 2 == 0 else [2, 3]
+        if r.random() < 0.3:
+            ks.append(r.choice([1, 4]))
+        ests, datas = [], []
+        for k in ks:
+            ds = [r.randint(1, 2) for _ in range(k)]
+            sp = [specs.elem_spec(r, "FuzzyART", d_) for d_ in ds]
+            spec = {"cls": "FusionART", "modules": sp, "gamma_values": [1.0 / k] * k, "channel_dims": [2 * d_ for d_ in ds]}
+            n = r.randint(4, 10)
+            X = np.hstack([specs.elem_data(r, "FuzzyART", n, d_) for d_ in ds])
+            e_ = make(spec)
+            with quiet():
+                for m_, d_ in zip(e_.modules, ds):       # documented workflow: prepare_data fixes the column bounds (identity here)
+                    m_.prepare_data(np.array([[0.0] * d_, [1.0] * d_]))
+            ests.append((spec, e_))
+            datas.append(X)
+        stage = "fit"
+        desc = {"specs": [s_ for s_, _ in ests], "X": [X.tolist() for X in datas]}
+        try:
+            with quiet(), np.errstate(all="ignore"):
+                for (spec, est), X in zip(ests, datas):
+                    stage = f"fit (model with {spec['channel_dims'].__len__()} channels)"
+                    est.fit(X)
+                    stage = f"predict (model with {len(spec['channel_dims'])} channels)"
+                    est.predict(X[:3])
+                    stage = f"predict_regression with default targets (model with {len(spec['channel_dims'])} channels)"
+                    out = est.predict_regression(X[:3])
+                    if not np.all(np.isfinite(np.asarray(out, dtype=float))):
+                        ctx.issue("violation", "FusionART.predict_regression:non-finite", f"{stage}: non-finite output", desc)
+                    stage = f"get_cluster_centers (model with {len(spec['channel_dims'])} channels)"
+                    est.get_cluster_centers()
+            cov.hit("several-instances-ok:" + "-".join(map(str, ks)))
+        except Exception as e:
+            ctx.issue("violation", f"FusionART:several-instances:{stage.split(' (')[0].replace(' ', '_')}:{exc_enum(e)}",
+                      f"models with {ks} channels used one after the other in one process: {stage} raised {e!r} on valid fitted data", desc)
+        cov.case(("instances", tuple(ks), desc["X"]), True)
